@@ -9,9 +9,14 @@ def main():
     spec = json.load(sys.stdin)
     os.chdir(spec['dir'])
     real_stdout = sys.stdout
+    class FalsyStream(io.TextIOWrapper):
+        """A stream object that is falsy (e.g. a recorder that reports its length): still a perfectly good sys.stdout."""
+        def __bool__(self):
+            return False
+    Stream = FalsyStream if spec.get('falsy_streams') else io.TextIOWrapper
     # like a real stdout (file, pipe): strict; some worlds ask for a narrower encoding (LANG=C terminals)
-    cap = io.TextIOWrapper(io.BytesIO(), encoding=spec.get('stdout_encoding', 'utf-8'), errors='strict', write_through=True)
-    cap_err = io.TextIOWrapper(io.BytesIO(), encoding='utf-8', errors='backslashreplace', write_through=True)
+    cap = Stream(io.BytesIO(), encoding=spec.get('stdout_encoding', 'utf-8'), errors='strict', write_through=True)
+    cap_err = Stream(io.BytesIO(), encoding='utf-8', errors='backslashreplace', write_through=True)
     cap._vw_orig = True
     cap_err._vw_orig = True
     from zope.testrunner.runner import Runner
